@@ -128,3 +128,9 @@ func (c cacheCfg) apply(o *absnfs.ExportOptions) {
 var baselineCaches = cacheCfg{AttrTTLns: 1, AttrSize: 1}
 
 func (c cacheCfg) anyOn() bool { return c.AttrTTLns > 1000 || c.DirCache || c.Negative }
+
+func newOpts(c cacheCfg) absnfs.ExportOptions {
+	var o absnfs.ExportOptions
+	c.apply(&o)
+	return o
+}
